@@ -40,6 +40,12 @@ class Ctx:
         self.explanation = ""
         self.extra: Dict[str, Any] = {}
         self._seen = set()
+        # "this step could not be decided": fails the run closed (exit 2) at the end - unless a violation was established,
+        # which is then what gets reported
+        self.deferred: List[str] = []
+
+    def defer(self, msg: str) -> None:
+        self.deferred.append(msg)
 
     def ok(self, rule: str, construct: str, detail: str = "") -> None:
         self.counts[rule] = self.counts.get(rule, 0) + 1
